@@ -200,6 +200,24 @@ CHECKS = {
             rapid("processes", "TestC15Processes", {"checks": 25, "shards": 6, "shrinktime": "10s"}, {"checks": 400, "shards": 16, "timeout": 6000}),
         ],
     },
+    "C16": {
+        "cli": True,
+        "technique": "rapid random generation of documents from a YAML-hostile string/number pool + pool enumeration, round-trip and differential oracles (jd writer -> jd reader; independent YAML writer -> jd reader vs JSON reader); CLI translation round trips",
+        "level_text": "Documents whose keys and values come from a pool aimed at YAML's resolver and syntax (booleans, nulls, numbers in every base, dates, indicators, quotes, "
+                      "multi-line, control and non-BMP characters) and extreme numbers are written as JSON and YAML by jd and read back, and written as YAML by an independent "
+                      "double-quoting emitter and read by jd; all must give the document read from JSON. Both binaries must satisfy json2yaml|yaml2json = identity and -yaml diff + -p -yaml = b. "
+                      "Every pool entry is enumerated in six embeddings. Exploration beyond the pool.",
+        "level_note": "Says nothing about arbitrary third-party YAML: only YAML written by jd or by the harness emitter is read. jd's JSON text is deliberately not fed to the YAML reader "
+                      "(yaml.v2 is a YAML 1.1 parser and JSON is not a subset of it).",
+        "rule": "library leg: documents up to depth 3 with 60% pool keys, pool strings, concatenations of two pool strings, 19 extreme numbers; pool leg: each of the ~150 pool strings as root, element, value, key, key+value "
+                "and nested, each number as root / element / value; cli leg: (a, b) pool documents, binary in {v2/jd, top-level}. Non-trivial: the document contains a pool string or a non-integral / large number; distinct by document.",
+        "assumptions": ["equality of documents is ordered-array deep equality on the JSON text jd renders"],
+        "legs": [
+            enum("pool", "TestC16Pool", {"shards": 2}, {"shards": 2}),
+            rapid("library", "TestC16Library", {"checks": 30000, "shards": 4}, {"checks": 300000, "shards": 16, "timeout": 6000}),
+            rapid("cli", "TestC16CLI", {"checks": 40, "shards": 6, "shrinktime": "10s"}, {"checks": 800, "shards": 16, "timeout": 6000}),
+        ],
+    },
     "C06": {
         "technique": "exhaustive enumeration of small array pairs + rapid random generation, oracle = independent LCS optimum and reference hunk interpreter",
         "level_text": "Every ordered pair of arrays over a small alphabet up to a length bound is enumerated (complete for that universe) and "
